@@ -79,7 +79,9 @@ fn random_diff(src: &mut Src, obs: &mut Obs) -> Res {
     // names that start and end with a quote, contain backslashes, ...: the comparison is differential,
     // so the open findings about escapes cancel
     cfg.special_keys = src.bool();
-    let doc = gen_doc(src, &cfg).sorted();
+    // V2 keeps its members sorted by name: the document is sorted explicitly, so that the Value has the
+    // same member order also when serde_json keeps insertion order (`preserve_order`)
+    let doc = gen_doc(src, &cfg).sorted_by_name();
     let q = gen_query(src, &doc, &cfg);
     let blanks = src.chance(1, 4);
     let text = render_with_blanks(src, &q, blanks);
@@ -461,7 +463,7 @@ fn random_object_equality(src: &mut Src, obs: &mut Obs) -> Res {
 
 fn direct(case: &Value, obs: &mut Obs) -> Res {
     let text = case["query"].as_str().unwrap_or("");
-    let doc = J::from_value(&case["doc"]);
+    let doc = J::from_value(&case["doc"]).sorted_by_name();
     let v = doc.to_value();
     obs.eval(3);
     let rv = run_value(&v, text);
